@@ -81,8 +81,15 @@ func TestC16SQLiteHandlerReplies(t *testing.T) {
 		hctx, hcancel := context.WithCancel(context.Background())
 		defer hcancel()
 		opt := mocsqlite.NewDefaultSQLiteHandlerOption()
-		opt.EventBulkInsertNum = 1
-		opt.EventBulkInsertDur = 0
+		// batches are written when they are full or when the flush timer fires
+		switch rapid.IntRange(0, 3).Draw(t, "batching") {
+		case 0, 1:
+			opt.EventBulkInsertNum, opt.EventBulkInsertDur = 1, 0
+		case 2:
+			opt.EventBulkInsertNum, opt.EventBulkInsertDur = 3, 3*time.Millisecond
+		default:
+			opt.EventBulkInsertNum, opt.EventBulkInsertDur = 50, 2*time.Millisecond
+		}
 		h, err := mocsqlite.NewSQLiteHandler(hctx, db, opt)
 		if err != nil {
 			t.Fatalf("handler: %v", err)
@@ -255,7 +262,7 @@ func TestC16SQLiteHandlerReplies(t *testing.T) {
 				break
 			}
 			if time.Now().After(deadline) {
-				hx.Fail(t, ev.Failure{Property: "C16", Signature: "sqlite-never-flushed", Clause: "with EventBulkInsertNum=1 a submitted event becomes visible", Case: desc(), Observed: "marker event not stored after 10 s"})
+				hx.Fail(t, ev.Failure{Property: "C16", Signature: "sqlite-never-flushed", Clause: "a submitted event becomes visible once its batch is full or the flush timer has fired", Case: desc(), Observed: "marker event not stored after 10 s"})
 			}
 			time.Sleep(time.Millisecond)
 		}
